@@ -113,12 +113,13 @@ package keymap
 //@   ensures [rejected-means-no-command] typed && !result1 && len(result3) < len(result2) ==> !bexact(binds, result2) || anykey(s, binds, conv(s) == result2 && len(binds[s].Action) == 0)
 //@   ensures [rejected-unbound] typed && !result1 && len(result3) < len(result2) && len(result0.Action) == 0 ==> len(result3) + 1 == len(result2)
 //@   ensures [returns-active] len(result2) > 0 ==> result0 == m.active
+//@   ensures @C03 [nothing-kept-once-resolved] !result1 && len(result2) > 0 ==> len(m.prefixed.Action) == 0 && !m.prefixed.Macro
 //@   ensures [no-keys-no-command] len(result2) == 0 ==> len(result0.Action) == 0 && !result0.Macro && !result1
 //@   ensures [reads-something] typed ==> (len(result2) == 0 <==> len(u) == 0)
 //@   ensures [shorter-were-prefixes] typed ==> all(j, 1, len(result2), bprefix(binds, result2[:j]))
 //@   loop 1 invariant m != nil && m.keys != nil && matched == read && (typed ==> len(m.keys.macroKeys) == 0 && len(read) <= len(u) && read == u[:len(read)] && m.keys.buf == u[len(read):])
 //@   loop 1 invariant typed ==> (len(read) == 0 && !prefix && m.prefixed == old(m.prefixed) && kept == 0) || (len(read) > 0 && prefix && bprefix(binds, read) && 0 <= kept && kept <= len(read) && ((m.prefixed == old(m.prefixed) && kept == 0) || (kept >= 1 && anykey(s, binds, conv(s) == read[:kept] && m.prefixed == binds[s]))))
-//@   loop 1 invariant m.active == old(m.active) && 0 <= kept && kept <= len(matched)
+//@   loop 1 invariant m.active == old(m.active) && 0 <= kept && kept <= len(matched) && (len(read) > 0 <==> prefix)
 //@   loop 1 invariant typed ==> all(j, 1, len(read) + 1, bprefix(binds, read[:j]))
 //@   loop 1 decreases len(m.keys.buf) + len(m.keys.macroKeys)
 
